@@ -22,9 +22,9 @@ if E2E_TRUSTED not in pipe_common.TRUSTED_BASE:
 PROFILES = {
     # peers, flaps, reup, metrics, query_ops
     "C01": dict(peers=pipegen.DISTINCT_PEERS, reup=False, metrics=False, query_ops=True, reload=True),
-    "C02": dict(peers=None, reup=False, metrics=False, query_ops=True),
-    "C03": dict(peers=pipegen.DISTINCT_PEERS[:4], reup=True, metrics=False, query_ops=True),
-    "C15": dict(peers=[0, 3, 5, 6, 8], reup=True, metrics=True, query_ops=False),
+    "C02": dict(peers=None, reup=False, metrics=False, query_ops=True, reload=True),
+    "C03": dict(peers=pipegen.DISTINCT_PEERS[:4], reup=True, metrics=False, query_ops=True, reload=True, reload_pc=30),
+    "C15": dict(peers=[0, 3, 5, 6, 8], reup=True, metrics=True, query_ops=False, reload=True),
     # C13: the configuration is reloaded under traffic; sessions and RIB contents must survive, later routers must be served
     "C13": dict(peers=pipegen.DISTINCT_PEERS, reup=False, metrics=False, query_ops=True, reload=True, reload_pc=100),
 }
@@ -51,6 +51,8 @@ CORPUS = {
     "C03": [
         # a router disconnects, reconnects and re-announces: ids are reused (find_existing_bmp_router), known finding C03-1
         "C 0;I 0;U 0 0 0;R 0 0 0 3 1,2 0 -;X 0;C 0;I 0;U 0 0 0;R 0 0 0 4 1 0 -;Q 0 1;Q 0 2",
+        # ... also when the listener was re-bound in between (the unit's own ingress id must not change)
+        "C 0;I 0;U 0 0 0;R 0 0 0 3 1 0 -;X 0;L;C 0;I 0;U 0 0 0;R 0 0 0 4 2 0 -;Q 0 1;Q 0 2",
         # ... the peer comes back on the same connection
         "C 0;I 0;U 0 0 0;R 0 0 0 3 1 0 -;D 0 0;U 0 0 0;R 0 0 0 4 2 0 -;Q 0 1;Q 0 2",
         # not re-announced: stays withdrawn
